@@ -1,5 +1,114 @@
-use crate::common::Ctx;
-pub fn run(_ctx: &Ctx, _replay: Option<&serde_json::Value>) -> i32 {
-    eprintln!("not implemented");
-    2
+//! C20 — displayed numbers are well-formed and accurate to 15 significant digits.
+
+use crate::alpha::double_grid;
+use crate::common::*;
+use crate::oracle;
+use blots_core::environment::Environment;
+use blots_core::functions::{BuiltInFunction, FunctionDef};
+use blots_core::heap::Heap;
+use blots_core::values::{Value, format_display_number};
+use serde_json::{Value as J, json};
+use std::cell::RefCell;
+use std::rc::Rc;
+
+/// `format("{}", x)` through the real built-in (no parsing of x involved).
+fn format_builtin(x: f64) -> Result<String, String> {
+    let heap = Rc::new(RefCell::new(Heap::new()));
+    let env = Rc::new(Environment::new());
+    let fmt = heap.borrow_mut().insert_string("{}".to_string());
+    let def = FunctionDef::BuiltIn(BuiltInFunction::Format);
+    let r = def
+        .call(Value::BuiltIn(BuiltInFunction::Format), vec![fmt, Value::Number(x)], Rc::clone(&heap), env, 0, "")
+        .map_err(|e| e.message)?;
+    let s = r.as_string(&heap.borrow()).map_err(|e| e.to_string())?.to_string();
+    Ok(s)
+}
+
+fn class_of(x: f64) -> String {
+    let a = x.abs();
+    if a == 0.0 {
+        "zero".into()
+    } else if !(0.0001..1e15).contains(&a) {
+        "scientific".into()
+    } else if x.fract() == 0.0 {
+        "standard-integer".into()
+    } else {
+        "standard-fraction".into()
+    }
+}
+
+pub fn run(ctx: &Ctx, replay: Option<&J>) -> i32 {
+    if let Some(r) = replay {
+        let bits = u64::from_str_radix(r["case"]["bits"].as_str().unwrap_or("0"), 16).unwrap_or(0);
+        let x = f64::from_bits(bits);
+        let text = format_display_number(x);
+        let ans = oracle::ask(&[format!("D20 {:016x} {}", bits, text)]).unwrap_or_else(|e| vec![e]);
+        println!("x = {:?} ({:016x})\nformat_display_number = {}\nformat built-in = {:?}\noracle: {}", x, bits, text, format_builtin(x), ans[0]);
+        if ans[0] != "ok" {
+            println!("VIOLATION property=C20 replay=<replayed>");
+            return 1;
+        }
+        return 0;
+    }
+    let mut grid = double_grid(!ctx.quick());
+    grid.extend([f64::NAN, f64::INFINITY, f64::NEG_INFINITY, 0.0, -0.0]);
+    ctx.set("grid_size", json!(grid.len()));
+    // render every x through both entry points
+    let texts: Vec<(String, Result<String, String>)> = par_map(&grid, |x| {
+        let a = catch(|| format_display_number(*x)).unwrap_or_else(|p| format!("<{}>", p));
+        let b = catch(|| format_builtin(*x)).unwrap_or_else(|p| Err(p));
+        (a, b)
+    });
+    let mut requests = vec![];
+    for (x, (a, b)) in grid.iter().zip(texts.iter()) {
+        ctx.count(2);
+        requests.push(format!("D20 {:016x} {}", x.to_bits(), a.replace('\n', " ")));
+        match b {
+            Ok(t) if t == a => {}
+            other => ctx.violation(Violation {
+                kind: "builtin-differs-from-display".into(),
+                class: class_of(*x),
+                input: format!("{:?} ({:016x})", x, x.to_bits()),
+                expected: a.clone(),
+                observed: format!("{:?}", other),
+                case: json!({"bits": format!("{:016x}", x.to_bits())}),
+            }),
+        }
+    }
+    let answers = match oracle::ask(&requests) {
+        Ok(a) => a,
+        Err(e) => {
+            ctx.machinery_error(format!("oracle failed: {}", e));
+            vec![]
+        }
+    };
+    for ((x, (a, _)), ans) in grid.iter().zip(texts.iter()).zip(answers.iter()) {
+        ctx.nontrivial(&format!("{:016x}", x.to_bits()));
+        ctx.outcome(&class_of(*x));
+        if ans != "ok" {
+            ctx.violation(Violation {
+                kind: "display".into(),
+                class: class_of(*x),
+                input: format!("{:?} ({:016x})", x, x.to_bits()),
+                expected: "a well-formed numeral within one unit of the 15th significant digit".into(),
+                observed: format!("{} -> {}", a, ans),
+                case: json!({"bits": format!("{:016x}", x.to_bits())}),
+            });
+        }
+    }
+    for i in [0usize, grid.len() / 3, grid.len() / 2, grid.len() - 7] {
+        ctx.sample(json!({"x": format!("{:?}", grid[i]), "bits": format!("{:016x}", grid[i].to_bits()), "display": texts[i].0}));
+    }
+    for c in ["scientific", "standard-integer", "standard-fraction"] {
+        ctx.require_outcome(c, 500);
+    }
+    ctx.set("trusted_base", json!(["/verif/lib/oracle.py (python3 fractions: exact value of the double and of the numeral)"]));
+    ctx.assume("doubles outside the enumerated grid are not explored");
+    finish(
+        ctx,
+        "exploration",
+        "every double of the finite grid N (sign x biased exponents x mantissa set, nearest doubles to 10^k +-3 ulp, 2^k +-{0,1,2}, threshold neighbourhoods, 15-digit carry cases, classical hard cases) plus NaN / infinities / zeros through format_display_number and the format built-in; the text is checked by an exact-rational oracle (numeral grammar, |text - x| < 10^(floor(log10|x|)-14), integers below 2^53 exact); distinct = distinct bit patterns",
+        true,
+        None,
+    )
 }
